@@ -152,16 +152,8 @@ pub mod ghost {
         unsafe {
             N_TASKS = 0;
             N_POOLS = 0;
-            let mut i = 0;
-            while i < MAX_TASKS {
-                TASKS[i] = TG0;
-                i += 1;
-            }
-            let mut i = 0;
-            while i < MAX_POOLS {
-                POOLS[i] = PG0;
-                i += 1;
-            }
+            TASKS = [TG0; MAX_TASKS];
+            POOLS = [PG0; MAX_POOLS];
         }
     }
     pub fn pools() -> usize {
@@ -180,8 +172,8 @@ pub mod ghost {
     pub fn loop_task(pool: usize) -> Option<usize> {
         unsafe {
             let mut k = 0;
-            while k < MAX_TASKS {
-                if k < N_TASKS && TASKS[k].pool == pool && TASKS[k].is_loop {
+            while k < N_TASKS {
+                if TASKS[k].pool == pool && TASKS[k].is_loop {
                     return Some(k);
                 }
                 k += 1;
@@ -193,8 +185,8 @@ pub mod ghost {
     pub fn next_pending() -> Option<usize> {
         unsafe {
             let mut k = 0;
-            while k < MAX_TASKS {
-                if k < N_TASKS && TASKS[k].state == ST_PENDING && !TASKS[k].is_loop {
+            while k < N_TASKS {
+                if TASKS[k].state == ST_PENDING && !TASKS[k].is_loop {
                     return Some(k);
                 }
                 k += 1;
